@@ -286,14 +286,56 @@ func decReq(toks []string) (*gnmi.SubscribeRequest, bool) {
 
 // ---------------------------------------------------------------- fakes
 
+// devMsg: kind 'r' = an update response carrying id, 'y' = a sync_response, 'o' = not a SubscribeResponse.
 type devMsg struct {
-	resp bool
+	kind byte
 	id   string
 }
 
+const syncID = "sync"
+
+func (m devMsg) relayID() string {
+	if m.kind == 'y' {
+		return syncID
+	}
+	return m.id
+}
+
+// parseRounds reads <round>/<round>/… ; "" = no rounds.
+func parseRounds(s string) ([][]devMsg, bool) {
+	if s == "" {
+		return nil, true
+	}
+	var out [][]devMsg
+	for _, rs := range strings.Split(s, "/") {
+		round := []devMsg{}
+		if rs != "" {
+			for _, m := range strings.Split(rs, ",") {
+				switch {
+				case m == "y":
+					round = append(round, devMsg{kind: 'y'})
+				case len(m) >= 2 && (m[0] == 'r' || m[0] == 'o'):
+					id, ok := fw.DecStr(m[1:])
+					if !ok {
+						return nil, false
+					}
+					round = append(round, devMsg{kind: m[0], id: id})
+				default:
+					return nil, false
+				}
+			}
+		}
+		out = append(out, round)
+	}
+	return out, true
+}
+
 type recorder struct {
-	dev    map[string][]devMsg
-	active string
+	dev      map[string][][]devMsg
+	handlers map[string]func(proto.Message) error // the ProtoHandler each target's client was given
+	round    map[string]int                       // the round each target is in
+	ended    map[string]bool                      // the target client's receive loop has ended (a handler error)
+	active   string
 	subs   map[string][]string // target -> rendered requests received
 	relays map[string][]string // target -> ids sent on the subscriber's stream
 	polls  map[string]int
@@ -329,8 +371,43 @@ func (c *fakeClient) SetWithString(ctx context.Context, request string) (*gnmi.S
 	return nil, nil
 }
 
-// Subscribe records the query and plays the target's scripted messages into the query's handler,
-// stopping at the first handler error like the client library's receive loop does.
+// play sends one round of the target's scripted messages into the handler the server installed,
+// stopping for good at the first handler error like the client library's receive loop does.
+func (c *fakeClient) play() {
+	r := c.rec
+	h := r.handlers[c.target]
+	if h == nil || r.ended[c.target] {
+		return
+	}
+	k := r.round[c.target]
+	if k >= len(r.dev[c.target]) {
+		return
+	}
+	r.active = c.target
+	for _, m := range r.dev[c.target][k] {
+		var msg proto.Message
+		switch m.kind {
+		case 'r':
+			resp := &gnmi.SubscribeResponse{Response: &gnmi.SubscribeResponse_Update{Update: &gnmi.Notification{
+				Timestamp: 7, Prefix: &gnmi.Path{Origin: m.id, Target: c.target}}}}
+			r.sent[resp] = proto.Clone(resp).(*gnmi.SubscribeResponse)
+			msg = resp
+		case 'y':
+			resp := &gnmi.SubscribeResponse{Response: &gnmi.SubscribeResponse_SyncResponse{SyncResponse: true}}
+			r.sent[resp] = proto.Clone(resp).(*gnmi.SubscribeResponse)
+			msg = resp
+		default:
+			msg = &gnmi.Path{Origin: m.id}
+		}
+		if err := h(msg); err != nil {
+			r.ended[c.target] = true
+			break
+		}
+	}
+	r.active = ""
+}
+
+// Subscribe records the query, keeps its handler and plays round 0.
 func (c *fakeClient) Subscribe(ctx context.Context, q baseClient.Query) error {
 	r := c.rec
 	desc := encReq(q.SubReq)
@@ -341,27 +418,17 @@ func (c *fakeClient) Subscribe(ctx context.Context, q baseClient.Query) error {
 		desc += " bad-handlers"
 	}
 	r.subs[c.target] = append(r.subs[c.target], desc)
-	r.active = c.target
-	for _, m := range r.dev[c.target] {
-		var msg proto.Message
-		if m.resp {
-			resp := &gnmi.SubscribeResponse{Response: &gnmi.SubscribeResponse_Update{Update: &gnmi.Notification{
-				Timestamp: 7, Prefix: &gnmi.Path{Origin: m.id, Target: c.target}}}}
-			r.sent[resp] = proto.Clone(resp).(*gnmi.SubscribeResponse)
-			msg = resp
-		} else {
-			msg = &gnmi.Path{Origin: m.id}
-		}
-		if err := q.ProtoHandler(msg); err != nil {
-			break
-		}
-	}
-	r.active = ""
+	r.handlers[c.target] = q.ProtoHandler
+	r.round[c.target] = 0
+	c.play()
 	return nil
 }
 
+// Poll counts the poll and plays the target's next round.
 func (c *fakeClient) Poll() error {
 	c.rec.polls[c.target]++
+	c.rec.round[c.target]++
+	c.play()
 	return nil
 }
 
@@ -393,10 +460,13 @@ type fakeStream struct {
 func (s *fakeStream) Send(resp *gnmi.SubscribeResponse) error {
 	id := "unknown-message"
 	if pristine, ok := s.rec.sent[resp]; ok {
-		if proto.Equal(pristine, resp) {
-			id = resp.GetUpdate().GetPrefix().GetOrigin()
-		} else {
+		switch {
+		case !proto.Equal(pristine, resp):
 			id = "modified"
+		case resp.GetSyncResponse():
+			id = syncID
+		default:
+			id = resp.GetUpdate().GetPrefix().GetOrigin()
 		}
 	}
 	s.rec.relays[s.rec.active] = append(s.rec.relays[s.rec.active], id)
@@ -536,7 +606,8 @@ func (r *real) Exec(ln string) (out string) {
 		}
 		r.Close()
 		r.sid = toks[1]
-		rec := &recorder{dev: map[string][]devMsg{}, sent: map[*gnmi.SubscribeResponse]*gnmi.SubscribeResponse{}}
+		rec := &recorder{dev: map[string][][]devMsg{}, sent: map[*gnmi.SubscribeResponse]*gnmi.SubscribeResponse{},
+			handlers: map[string]func(proto.Message) error{}, round: map[string]int{}, ended: map[string]bool{}}
 		rec.reset()
 		for _, t := range toks[2:] {
 			if !strings.HasPrefix(t, "dev:") {
@@ -550,18 +621,9 @@ func (r *real) Exec(ln string) (out string) {
 			if !ok {
 				return "bad-op"
 			}
-			msgs := []devMsg{}
-			if ms != "" {
-				for _, m := range strings.Split(ms, ",") {
-					if len(m) < 2 || (m[0] != 'r' && m[0] != 'o') {
-						return "bad-op"
-					}
-					id, ok := fw.DecStr(m[1:])
-					if !ok {
-						return "bad-op"
-					}
-					msgs = append(msgs, devMsg{m[0] == 'r', id})
-				}
+			msgs, ok := parseRounds(ms)
+			if !ok {
+				return "bad-op"
 			}
 			rec.dev[target] = msgs
 		}
@@ -802,7 +864,31 @@ func namesTarget(p parsedReq) bool {
 func monitor(c fw.Case, out []string) []string {
 	var fails []string
 	// stream state as the property sees it
-	var dev map[string][]devMsg
+	var dev map[string][][]devMsg
+	round := 0               // the poll round the stream is in
+	ended := map[string]bool{} // targets that sent something that is not a SubscribeResponse: their relay is over
+	// what a target sent in a round, as the subscriber must receive it (up to a foreign message)
+	sentIn := func(t string, k int) (ids []string) {
+		if ended[t] || k >= len(dev[t]) {
+			return nil
+		}
+		for _, m := range dev[t][k] {
+			if m.kind == 'o' {
+				ended[t] = true
+				break
+			}
+			ids = append(ids, fw.EncStr(m.relayID()))
+		}
+		return ids
+	}
+	received := func(toks []string) string {
+		for _, tk := range toks {
+			if strings.HasPrefix(tk, "relay:") {
+				return tk[6:]
+			}
+		}
+		return ""
+	}
 	subscribed := false
 	over := false
 	var streamTargets []string
@@ -844,18 +930,16 @@ func monitor(c fw.Case, out []string) []string {
 				continue
 			}
 			sid = toks[1]
-			dev = map[string][]devMsg{}
+			dev = map[string][][]devMsg{}
 			for _, t := range toks[2:] {
 				th, ms, _ := strings.Cut(t[4:], "=")
 				target, _ := fw.DecStr(th)
-				dev[target] = nil
-				if ms != "" {
-					for _, m := range strings.Split(ms, ",") {
-						id, _ := fw.DecStr(m[1:])
-						dev[target] = append(dev[target], devMsg{m[0] == 'r', id})
-					}
+				dev[target], _ = parseRounds(ms)
+				if dev[target] == nil {
+					dev[target] = [][]devMsg{}
 				}
 			}
+			round, ended = 0, map[string]bool{}
 			subscribed, over, streamTargets = false, false, nil
 		case "subscribe.eof", "subscribe.recverr":
 			if !over && strings.Contains(o, "|") {
@@ -926,21 +1010,9 @@ func monitor(c fw.Case, out []string) []string {
 					if !connected[t] {
 						continue
 					}
-					var want []string
-					for _, m := range dev[t] {
-						if !m.resp {
-							break
-						}
-						want = append(want, fw.EncStr(m.id))
-					}
-					gotR := ""
-					for _, tk := range groups[t] {
-						if strings.HasPrefix(tk, "relay:") {
-							gotR = tk[6:]
-						}
-					}
-					if gotR != strings.Join(want, ",") {
-						fails = append(fails, fmt.Sprintf("line=%d relay-changed: target %q sent updates [%s], the subscriber was sent [%s]", i, t, strings.Join(want, ","), gotR))
+					want := strings.Join(sentIn(t, 0), ",")
+					if got := received(groups[t]); got != want {
+						fails = append(fails, fmt.Sprintf("line=%d relay-changed: in answer to the subscription target %q sent [%s], the subscriber was sent [%s]", i, t, want, got))
 					}
 				}
 			case p.kind == "P":
@@ -949,6 +1021,7 @@ func monitor(c fw.Case, out []string) []string {
 					over = true
 					continue
 				}
+				round++
 				for _, t := range streamTargets {
 					if !connected[t] {
 						continue
@@ -962,6 +1035,10 @@ func monitor(c fw.Case, out []string) []string {
 					if n != 1 {
 						fails = append(fails, fmt.Sprintf("line=%d poll-missed: subscribed target %q was polled %d times", i, t, n))
 					}
+					want := strings.Join(sentIn(t, round), ",")
+					if got := received(groups[t]); got != want {
+						fails = append(fails, fmt.Sprintf("line=%d relay-changed: in poll round %d target %q sent [%s], the subscriber was sent [%s]", i, round, t, want, got))
+					}
 				}
 				for t, toks := range groups {
 					named := false
@@ -970,7 +1047,13 @@ func monitor(c fw.Case, out []string) []string {
 							named = true
 						}
 					}
-					if !named || len(toks) != 1 {
+					stray := !named
+					for _, tk := range toks {
+						if tk != "poll" && !strings.HasPrefix(tk, "relay:") {
+							stray = true
+						}
+					}
+					if stray {
 						fails = append(fails, fmt.Sprintf("line=%d poll-stray: a poll caused %v on target %q", i, toks, t))
 					}
 				}
@@ -1158,14 +1241,29 @@ func genInit(r *rng.R, sid string) string {
 	all := r.Chance(2, 3) // most streams have every target connected
 	for _, t := range targets {
 		if all || r.Chance(1, 2) {
-			var ms []string
-			for i := r.Intn(4); i > 0; i-- {
-				kind := "r"
-				if r.Chance(1, 10) {
-					kind = "o"
+			// 1-4 rounds: updates closed by a sync_response (a well-behaved target), sometimes without,
+			// sometimes several syncs, rarely a message that is not a SubscribeResponse
+			var rounds []string
+			for k := r.Range(0, 4); k > 0; k-- {
+				var ms []string
+				for i := r.Intn(3); i > 0; i-- {
+					ms = append(ms, "r"+fw.EncStr(fmt.Sprintf("u%d", r.Intn(100))))
 				}
-				ms = append(ms, kind+fw.EncStr(fmt.Sprintf("u%d", r.Intn(100))))
+				if r.Chance(4, 5) {
+					ms = append(ms, "y")
+				}
+				if r.Chance(1, 10) {
+					ms = append(ms, "y")
+				}
+				if r.Chance(1, 15) {
+					ms = append(ms, "o"+fw.EncStr("x"))
+					if r.Chance(1, 2) {
+						ms = append(ms, "y")
+					}
+				}
+				rounds = append(rounds, strings.Join(ms, ","))
 			}
+			ms := []string{strings.Join(rounds, "/")}
 			toks = append(toks, "dev:"+fw.EncStr(t)+"="+strings.Join(ms, ","))
 		}
 	}
@@ -1215,7 +1313,7 @@ func gen(r *rng.R, tier string) fw.Case {
 	} else {
 		sid := fmt.Sprintf("s%016x", r.U64())
 		c.Script = append(c.Script, genInit(r, sid))
-		n := r.Range(1, 5)
+		n := r.Range(1, 6)
 		first := true
 		for i := 0; i < n; i++ {
 			var req string
@@ -1227,7 +1325,7 @@ func gen(r *rng.R, tier string) fw.Case {
 						break
 					}
 				}
-			} else if !first && r.Chance(3, 5) {
+			} else if !first && r.Chance(4, 5) {
 				req = "P top:-"
 			} else {
 				req = genReq(r, &tags)
@@ -1281,8 +1379,9 @@ func enumerate(tier string) []fw.Case {
 			sid := fmt.Sprintf("e%d", n)
 			c := fw.Case{Script: []string{
 				"subscribe.split " + req,
-				"subscribe.init " + sid + " dev:" + fw.EncStr("t1") + "=r" + fw.EncStr("u1") + ",r" + fw.EncStr("u2"),
+				"subscribe.init " + sid + " dev:" + fw.EncStr("t1") + "=r" + fw.EncStr("u1") + ",y/r" + fw.EncStr("u2") + ",y/y",
 				"subscribe.msg " + sid + " " + req,
+				"subscribe.msg " + sid + " P top:-",
 				"subscribe.msg " + sid + " P top:-",
 			}, Tags: []string{"enum-assignment"}}
 			out = append(out, finish(c))
@@ -1337,7 +1436,7 @@ var Prop = &fw.Prop{
 	ID: "C19",
 	Rule: "subscribe requests with 0-8 entries over 0-4 targets (entries without target, nil paths), prefix nil / without target / with target / with the deprecated element field, " +
 		"all list modes, encodings, qos, use_models, updates_only, extensions; polls, empty messages, subscriptions with a nil list; through splitSubscribeRequest (hook) and as message sequences " +
-		"of length 1-5 (+ EOF / receive error) on Server.Subscribe with a fake stream and fake per-target clients (3/4 of the targets connected, 0-3 scripted responses each, a rare non-response); " +
+		"of length 1-5 (+ EOF / receive error) on Server.Subscribe with a fake stream and fake per-target clients (most targets connected; each answers the subscription and every poll with a scripted round: updates closed by a sync_response, sometimes none or two, rarely a non-response); " +
 		"plus exhaustive target assignments {none t1 t2}^0..4 x prefix {nil, no target, target}. Non-trivial = a request naming at least two targets or a refused message.",
 	Quick: 20000, Thorough: 400000,
 	Gen: gen, Enumerate: enumerate,
